@@ -554,6 +554,7 @@ def check(ctx):
     n += client(ctx, P, clo, P.fn(W + "RemoveTxs", nparams=1), "RemoveTxs", 1)
     n += client(ctx, P, clo, P.fn(W + "DelAddressBook"), "DelAddressBook", 1)
     ctx.floor("batch uses inside the RunWithinTxn procedures", n, 3)
+    locked_coins(ctx, P)
 
 
 def run_within_txn(ctx, P, inner, outer, fl):
@@ -586,3 +587,106 @@ def run_within_txn(ctx, P, inner, outer, fl):
             match(["param", outer.params[2]["n"]], undefarg(a[2])) and d[0].get("ty") == BATCH_CLASS
     ctx.ob("RunWithinTxn(database)/wraps", "PROVENANCE", "RunWithinTxn(database, ..) creates one stack WalletBatch on that database, runs the batch-taking RunWithinTxn with the "
            "caller's procedure and returns its result unchanged", ok, outer.where, det)
+
+
+# ------------------------------------------------------------------------------------------------ persistently locked coins
+# "Everything a wallet records (.. persistently locked coins ..) is reloaded unchanged": the in-memory flag of m_locked_coins says whether a lockedutxo
+# record exists, and UnlockCoin/UnlockAllCoins erase the record only when the flag is set.  Necessary conditions decided here:
+#  (W) LockCoin reports success for a persistent request only through WriteLockedUTXO(coin);
+#  (F) on the way to that write the map entry is *made* persistent by an overwriting store - emplace/insert/try_emplace leave an existing (in-memory) entry
+#      untouched, after which unlocking skips EraseLockedUTXO and the coin is locked again after a restart;
+#  (E) UnlockCoin / UnlockAllCoins erase the record of the coin they remove under no other condition than "present" / "flag set".
+LOCKED = [".", ["this"], "wallet::CWallet::m_locked_coins"]
+NON_OVERWRITING = ("emplace", "insert", "try_emplace", "emplace_hint")
+
+
+def _map_op(e):
+    return e[1].rsplit("::", 1)[-1] if is_expr(e) and e[0] == "mcall" and len(e) > 2 and e[2] == LOCKED else None
+
+
+def locked_coins(ctx, P):
+    W = "wallet::CWallet::"
+    lock = ctx.used(P.fn(W + "LockCoin"))
+    if len(lock.params) != 2:
+        raise AnalysisBroken("CWallet::LockCoin does not take (coin, persist)")
+    coin, persist = lock.params[0]["n"], lock.params[1]["n"]
+    # (W)
+    bad = []
+    n_write = 0
+    for e in exits(lock, P):
+        if e.kind != "ret":
+            continue
+        v = e.value
+        is_write = is_expr(v) and v[0] == "mcall" and v[1] == "wallet::WalletBatch::WriteLockedUTXO" and match(["param", coin], v[3] if len(v) > 3 else None)
+        n_write += bool(is_write)
+        if is_write or F.implies(e.formula, F.mk_not(F.atom(persist))):
+            continue
+        if match(["bool", False], v):
+            continue
+        bad.append((e.line, show(v), F.fshow(e.formula)))
+    if not n_write:
+        raise AnalysisBroken("CWallet::LockCoin: no `return batch.WriteLockedUTXO(<coin>)` exit found")
+    ctx.ob("locked-coins/LockCoin/persist-writes", "MPT", "CWallet::LockCoin reports success for a persistent lock only as the result of WriteLockedUTXO(%s): every other "
+           "non-failing exit implies !%s" % (coin, persist), not bad, lock.where, {"exits_without_write": bad})
+    # (F) region = LockCoin + the CWallet helpers it calls with the coin
+    region = [(lock, persist)]
+    for _, x in all_exprs(lock.body):
+        for c in subexprs(x):
+            if is_expr(c) and c[0] == "mcall" and c[1].startswith(W) and match(["this"], c[2]) and any(match(["param", coin], a) for a in call_args(c)):
+                for g in P.fns(c[1]):
+                    args = call_args(c)
+                    pi = [i for i, a in enumerate(args) if match(["param", persist], a)]
+                    if pi and pi[0] < len(g.params):
+                        region.append((ctx.used(g), g.params[pi[0]]["n"]))
+    inserts, stores = [], []
+    for g, pflag in region:
+        refs = set()
+        derived = set()     # locals / bindings initialised from an operation on m_locked_coins (iterator or emplace result)
+        for st in stmts(g.body):
+            if st.get("k") == "decl" and _map_op(st.get("i")) in NON_OVERWRITING + ("find", "lower_bound"):
+                derived |= set(st.get("binds") or []) | ({st["n"]} if st.get("n") else set())
+            if st.get("k") == "decl" and st.get("n") and st.get("ty", "").endswith("&") and is_expr(st.get("i")) and st["i"][0] == "idx" and st["i"][1] == LOCKED:
+                refs.add(st["n"])       # `bool& flag = m_locked_coins[coin];`
+        for sx in sites(g, lambda e: _map_op(e) is not None or (e[0] == "b" and e[1] in ("=", "|=")), P):
+            e = sx.expr
+            op = _map_op(e)
+            if op in NON_OVERWRITING:
+                inserts.append((g.q, sx.line, op))
+            elif op == "insert_or_assign":
+                stores.append((g, pflag, sx, call_args(e)[-1]))
+            elif e[0] == "b":
+                lhs = e[2]
+                while is_expr(lhs) and lhs[0] == "cast":
+                    lhs = lhs[2]
+                to_entry = (is_expr(lhs) and lhs[0] == "idx" and lhs[1] == LOCKED) or (is_expr(lhs) and lhs[0] == "local" and lhs[1] in refs) or \
+                           (is_expr(lhs) and lhs[0] == "." and lhs[2].endswith("::second") and is_expr(lhs[1]) and
+                            ((lhs[1][0] == "local" and lhs[1][1] in derived) or (lhs[1][0] == "." and is_expr(lhs[1][1]) and lhs[1][1][0] == "local" and lhs[1][1][1] in derived)))
+                if to_entry:
+                    stores.append((g, pflag, sx, e[3]))
+    good = []
+    for g, pflag, sx, val in stores:
+        sets_true = match(["bool", True], val) or match(["param", pflag], val) or (is_expr(val) and val[0] == "b" and val[1] in ("||", "|") and any(match(["param", pflag], o) for o in val[2:4]))
+        reachable_when_persistent = not F.implies(sx.formula(), F.mk_not(F.atom(pflag)))
+        if sets_true and reachable_when_persistent:
+            good.append((g.q, sx.line, show(sx.expr)))
+    if not inserts and not stores:
+        raise AnalysisBroken("CWallet::LockCoin: no store into m_locked_coins found in LockCoin or the helpers it passes the coin to")
+    ctx.ob("locked-coins/LockCoin/flag-made-persistent", "TYPESTATE", "locking a coin persistently sets the in-memory flag of its m_locked_coins entry by an overwriting store "
+           "(operator[] / insert_or_assign / it->second = ..), also when an in-memory lock already exists: emplace/insert leave an existing entry untouched, "
+           "UnlockCoin/UnlockAllCoins then skip EraseLockedUTXO and the coin is locked again after a restart", bool(good), lock.where,
+           {"non_overwriting_inserts": inserts, "overwriting_stores_reachable_with_persist": good})
+    # (E)
+    for q, keyp in ((W + "UnlockCoin", True), (W + "UnlockAllCoins", False)):
+        g = ctx.used(P.fn(q))
+        nm = naming(g, P)
+        ss = sites(g, call_to("wallet::WalletBatch::EraseLockedUTXO"), P)
+        if not ss:
+            ctx.ob("locked-coins/%s/erases-record" % q.rsplit("::", 1)[-1], "MPT", "%s erases the lockedutxo record of a persistently locked coin it unlocks" % q, False, g.where)
+            continue
+        for sx in ss:
+            arg = F.expand(call_args(sx.expr)[0], nm)
+            arg_ok = match(["param", g.params[0]["n"]], arg) if keyp else "m_locked_coins" in F.key(arg)
+            atoms = sorted(F.atoms(sx.formula(nm)))
+            foreign = [a for a in atoms if "m_locked_coins" not in a and a != "success" and not a.startswith("success#")]
+            ctx.ob("locked-coins/%s/erases-record@L%s" % (q.rsplit("::", 1)[-1], sx.line), "GUARD", "%s erases the lockedutxo record of the coin it unlocks, conditioned only "
+                   "on the entry being present / flagged persistent" % q, bool(arg_ok) and not foreign, sx.where, {"argument": show(arg), "guard_atoms": atoms})
